@@ -18,11 +18,12 @@ Definition run_create_arcs (zero top thr one : Z) (n k : Z) (wflat : list Z) : l
   flatten_adj (k_adj g) ++ k_radius g ++ [k_gdens g] ++ maxd.
 
 (* create_arcs called twice without destroy_arcs in between (the non-fresh general form) *)
-Definition run_create_arcs_twice (zero top thr one : Z) (n k1 k2 : Z) (wflat : list Z) : list Z :=
+Definition run_create_arcs_twice (zero top thr one : Z) (destroy : Z) (n k1 k2 : Z) (wflat : list Z) : list Z :=
   let nn := zn n in
   let '(g1, _) := create_arcs Z.ltb zero top thr one (zn k1) nn (wfun nn wflat)
                               (knn_init zero (repeat 0%nat nn)) in
-  let '(g, maxd) := create_arcs Z.ltb zero top thr one (zn k2) nn (wfun nn wflat) g1 in
+  let g1' := if Z.eqb destroy 0 then g1 else destroy_arcs g1 in
+  let '(g, maxd) := create_arcs Z.ltb zero top thr one (zn k2) nn (wfun nn wflat) g1' in
   flatten_adj (k_adj g) ++ k_radius g ++ [k_gdens g] ++ maxd.
 
 Fixpoint unflatten_adj (fuel : nat) (l : list Z) : list (list nat) :=
@@ -101,7 +102,7 @@ Definition run_knn_predict_batch (k n : Z) (eps mn mx : float) (cost : list floa
    destroy_arcs; create_arcs(best_k) on a subgraph whose density bound is [gdens0] (it survives destroy_arcs);
    calculate_pdf(best_k); _clustering(force_prototype=True) resp. _clustering(best_k).
    [d] = n*n distances, [e] = n*n terms exp(-d/constant) computed by numpy with the model's final constant.
-   Output (all as floats): [constant; min; max; n_clusters] ++ density ++ cost ++ pred ++ root ++ predicted_label ++ cluster_label *)
+   Output (all as floats): [constant; min; max; n_clusters] ++ radius ++ density ++ cost ++ pred ++ root ++ predicted_label ++ cluster_label *)
 Definition fz (z : Z) : float := float_ofZ z.
 
 Definition run_knn_fit_final (sup : Z) (n k : Z) (gdens0 : float) (labels : list Z) (d e : list float) : list float :=
@@ -118,6 +119,6 @@ Definition run_knn_fit_final (sup : Z) (n k : Z) (gdens0 : float) (labels : list
                   (k_pred g1) (k_root g1) (k_plabel g1) (k_clabel g1) (k_order g1) (k_gdens g1) (k_nclusters g1) in
   let g3 := if isup then clustering_sup PrimFloat.ltb 0%float fmaxF (PrimFloat.opp fmaxF) true g2
             else clustering_unsup PrimFloat.ltb 0%float fmaxF (PrimFloat.opp fmaxF) kk g2 in
-  [c; mn; mx; fz (nz (k_nclusters g3))] ++ k_dens g3 ++ k_cost g3
+  [c; mn; mx; fz (nz (k_nclusters g3))] ++ k_radius g3 ++ k_dens g3 ++ k_cost g3
   ++ map (fun o => fz (opt_code o)) (k_pred g3) ++ map (fun r => fz (nz r)) (k_root g3)
   ++ map (fun r => fz (nz r)) (k_plabel g3) ++ map (fun r => fz (nz r)) (k_clabel g3).
